@@ -114,6 +114,7 @@ def run(rec):
                     vp[tuple(idx)] = 1.
                     check_state(rec, pp, vp, 'from_product_state', dict(inp, state=idx), check_schmidt=False)
     singlets(rec, rng)
+    covering(rec, rng, quick)
     infinite(rec, rng, quick)
 
 
@@ -142,6 +143,58 @@ def singlets(rec, rng):
             v[tuple(idx)] = sign / np.sqrt(2) ** len(pairs)
         ov = abs(np.vdot(v.ravel(), d.ravel()))
         rec.check(abs(ov - 1) < 1e-9 and abs(np.linalg.norm(d) - 1) < 1e-9, 'from_singlets:state', f'|overlap| = {ov}', {'L': L, 'pairs': pairs})
+
+
+def covering(rec, rng, quick):
+    """from_product_mps_covering: random entangled local states (unequal Schmidt weights) on interleaved site sets;
+    the result must denote the product state and store the true Schmidt values on every bond"""
+    from tenpy.networks.mps import MPS
+    fams = [f for f in mpsgen.site_families() if not getattr(f[1], 'takes_L', False)]
+    for fname, fam in fams:
+        for k in range(2 if quick else 12):
+            nloc = int(rng.integers(2, 4))
+            Ls = [int(rng.integers(1, 4)) for _ in range(nloc)]
+            L = sum(Ls)
+            if L > 7:
+                continue
+            order = [int(x) for x in rng.permutation(L)]
+            index_map, pos = [], 0
+            for l in Ls:
+                index_map.append(sorted(order[pos:pos + l]))
+                pos += l
+            site = fam()
+            inp = {'family': fname, 'index_map': index_map}
+            rec.begin(f'C07 from_product_mps_covering {inp}')
+            locs = []
+            for l in Ls:
+                v = mpsgen.random_state_vector(rng, [site] * l)
+                import tenpy.linalg.np_conserved as npc
+                legs = [site.leg] * l
+                a = npc.Array.from_ndarray(v, legs, labels=[f'p{i}' for i in range(l)], qtotal=npc.detect_qtotal(v, legs))
+                if l == 1:
+                    locs.append((MPS.from_product_state([site], [v.astype(complex)], 'finite', dtype=complex, permute=False), v))
+                else:
+                    locs.append((MPS.from_full([site] * l, a, form='B', cutoff=1e-14, normalize=False), v))
+            ok, psi = rec.guarded('from_product_mps_covering:exception',
+                                  lambda: MPS.from_product_mps_covering([p for p, _ in locs], index_map, bc='finite', unit_cell_width=L), inp)
+            rec.case(('covering', fname, k), True, sample=inp if k == 0 else None)
+            if not ok:
+                continue
+            ref = np.ones(())
+            flat_order = []
+            for (_, v), idx in zip(locs, index_map):
+                ref = np.multiply.outer(ref, v)
+                flat_order.extend(idx)
+            ref = ref.transpose(np.argsort(flat_order))
+            try:
+                psi.test_sanity()
+            except Exception as e:
+                rec.violation('from_product_mps_covering:sanity', str(e), inp)
+                continue
+            check_state(rec, psi, ref, 'from_product_mps_covering', inp)
+            p2 = psi.copy()
+            p2.convert_form('A')
+            check_state(rec, p2, ref, "from_product_mps_covering+convert_form('A')", inp, check_schmidt=False)
 
 
 def infinite(rec, rng, quick):
